@@ -594,7 +594,13 @@ func (e *Exec) doBatch(bs *BatchSpec) {
 	if err != nil {
 		e.fail("batch-error", "NewBatch: %v", err)
 	}
+	if e.flag("limits") && simrt.Chance(0.08, "limits") {
+		e.tryOversize(b)
+	}
 	e.fillBatch(b, bs, true)
+	if e.flag("limits") && simrt.Chance(0.05, "limits2") {
+		e.tryOversize(b)
+	}
 	// The batch may reach the lower level before ExecuteBatch returns to us, so
 	// the model learns about it first; collection-level oracles only run at
 	// driver turns, when no ExecuteBatch is in flight.
@@ -945,6 +951,19 @@ func (e *Exec) drain() bool {
 		}).NotifyMerger("", false)
 	}
 	e.probe("drain-incomplete")
+	if e.viol == nil && e.fs.FaultSeen == 0 && !e.fs.FaultsPending() && (e.ll == nil || len(e.ll.faults) == 0) &&
+		!simrt.OthersEligible() && !e.storeMaybeAll {
+		d := "?"
+		if content, ss, err := e.lowerContent(); err == nil {
+			if ss != nil {
+				ss.Close()
+			}
+			d = e.hist.Last().Diff(content, "")
+		}
+		e.failD("stuck-unpersisted", map[string]string{"symptom": "stuck-unpersisted", "diff": d},
+			"no fault was injected, every background task is idle (merger and persister wait for work) after repeated notifications, yet the lower level still lacks executed batches (it shows prefix %d of %d): %s",
+			e.lb, e.hist.N(), d)
+	}
 	return false
 }
 
@@ -1084,4 +1103,29 @@ func trunc(s string, n int) string {
 		return s[:n] + "..."
 	}
 	return s
+}
+
+var oversizeKey = make([]byte, 1<<24) // one byte more than the documented key limit
+var oversizeVal []byte                // 1<<28, allocated on first use
+
+// tryOversize: oversize keys / values are rejected with the documented errors
+// and leave the other operations of the batch alone (C19).
+func (e *Exec) tryOversize(b moss.Batch) {
+	e.out.Checks++
+	if err := b.Set(oversizeKey, []byte("v")); err != moss.ErrKeyTooLarge {
+		e.failD("limit-not-enforced", map[string]string{"symptom": "key-limit"}, "Set with a key of 2^24 bytes: err=%v, want ErrKeyTooLarge", err)
+	}
+	if err := b.Del(oversizeKey); err != moss.ErrKeyTooLarge {
+		e.failD("limit-not-enforced", map[string]string{"symptom": "key-limit"}, "Del with a key of 2^24 bytes: err=%v, want ErrKeyTooLarge", err)
+	}
+	e.probe("oversize-key-rejected")
+	if e.c.Flags["tier-thorough"] && simrt.Chance(0.2, "bigval") {
+		if oversizeVal == nil {
+			oversizeVal = make([]byte, 1<<28)
+		}
+		if err := b.Set([]byte("big"), oversizeVal); err != moss.ErrValueTooLarge {
+			e.failD("limit-not-enforced", map[string]string{"symptom": "value-limit"}, "Set with a value of 2^28 bytes: err=%v, want ErrValueTooLarge", err)
+		}
+		e.probe("oversize-value-rejected")
+	}
 }
